@@ -124,7 +124,7 @@ FAMILIES = {
     "BIGSEQ": dict(
         mc=("MC_FeesBig", "MC_FeesBig.cfg", {"quick": {"Ks": "{64}"}, "thorough": {"Ks": "{64, 255}"}}),
         gens=[("Gen_BigSeq", "Gen_BigSeq.cfg", "bfs", {"quick": dict(depth=1, consts={}), "thorough": dict(depth=1, consts={})})],
-        replays=[dict(mode="app", controls="", swap=False)]),
+        replays=[dict(mode="app", controls="clean", swap=False)]),
     "DUST": dict(
         mc=("MC_Dust", "MC_Dust.cfg", {"quick": {"MaxDepth": "3"}, "thorough": {"MaxDepth": "4"}}),
         gens=[("Gen_Dust", "Gen_Dust.cfg", "bfs", {"quick": dict(depth=3, consts={}), "thorough": dict(depth=4, consts={})})],
@@ -144,7 +144,7 @@ PROPS = {
                 rule="a step is non-trivial for C01 when it is a packet reception; distinct = distinct (abstract pre-state, abstract input)"),
     "C02": dict(families=["FUNDS", "FEESBIG", "XFUND", "BIGSEQ"], groups=["bal", "supply"], level="model_checking",
                 rule="non-trivial = a successful orbiter transfer (success acknowledgement); distinct = distinct (abstract pre-state, abstract input)"),
-    "C11": dict(families=["DUST", "FUNDS", "XFUND"], groups=["ack", "bal", "stats", "xfers"], level="model_checking",
+    "C11": dict(families=["DUST", "FUNDS", "XFUND", "BIGSEQ"], groups=["ack", "bal", "stats", "xfers"], level="model_checking",
                 rule="non-trivial = an orbiter packet received while the orbiter account holds coins, with the paired control run on the emptied account executed; distinct = distinct (pre-state, input)"),
     "C12": dict(families=["FUNDS", "STATS", "ORDER", "DISCARD"], groups=["stats"], level="model_checking",
                 rule="non-trivial = a successful orbiter transfer (statistics must change by exactly that transfer); all other steps are checked for 'unchanged'; distinct = distinct (pre-state, input)"),
